@@ -194,6 +194,10 @@ pub fn gen(rng: &mut Rng, thorough: bool, sink: &mut Sink) {
     for f in [1i64, 2, 3, 5] { for m in masks(4) {
       let mut c = head.clone(); c.extend([1, 1, 0, f]); put_lp(&mut c, &m); sink.case(c, "purge-masks");
     } }
+    // purge by an id that names an existing method's DID and fragment but carries a path / query: not that method's id
+    for f in [1i64, 2, 5] { for r in [1i64, 2] { for m in masks(2) {
+      let mut c = head.clone(); c.extend([1, 1, r, f]); put_lp(&mut c, &m); sink.case(c, "purge-other-spelling");
+    } } }
     for sc in [0i64, 1, 4] { for m in masks(3) { for k in [1i64, 2, 3] {
       let mut c = head.clone(); c.extend([0, 9, 1, 0, -1, sc]); put_lp(&mut c, &m.iter().map(|b| b * k).collect::<Vec<i64>>()); sink.case(c, "generate-without-id");
     } } }
